@@ -80,6 +80,10 @@ def check(ctx):
         for fam in FAMILIES:
             for mode in MODES:
                 check_kernel(ctx, KE, fam, mode, backend, outputs=("MXX", "MYY"), rule="R4-mean-segment-power")
+    # the window sums stored with the result are (sum w)^2 and sum w^2 of the window of that very length, on both analysis paths
+    from ..dispatch import check_assembly, check_single_fields
+    check_assembly(ctx, rule="R5-stored-window-sums", only=("S12", "S2"))
+    check_single_fields(ctx, rule="R5-stored-window-sums", only=("S12", "S2"))
     # the sums S1, S2 that calibrate a density must be those of the window requested now (memoised windows keyed completely)
     from ..dispatch import check_cache_keys
     check_cache_keys(ctx, rule="R3-window-sums-current", about=("window",))
